@@ -78,9 +78,8 @@ static Outcome fail(const std::string &key, const std::string &what, const std::
 }
 
 // vector -> string -> vector
-static Outcome v2s_case(const std::vector<long> &v, const std::string &cas) {
+static Outcome v2s_case(const std::vector<long> &v, const std::string &cas, votca::xtp::IndexParser &ip) {
   Outcome o;
-  votca::xtp::IndexParser ip;
   std::set<long> want(v.begin(), v.end());
   std::vector<long> wantv(want.begin(), want.end());
   bool neg = !wantv.empty() && wantv.front() < 0;
@@ -104,9 +103,8 @@ static Outcome v2s_case(const std::vector<long> &v, const std::string &cas) {
 }
 
 // string -> vector -> string -> vector
-static Outcome s2v_case(const std::string &s, const std::string &cas) {
+static Outcome s2v_case(const std::string &s, const std::string &cas, votca::xtp::IndexParser &ip) {
   Outcome o;
-  votca::xtp::IndexParser ip;
   RefStr r = refread(s);
   std::vector<long> want(r.set.begin(), r.set.end());
   std::vector<long> got;
@@ -128,14 +126,38 @@ static Outcome s2v_case(const std::string &s, const std::string &cas) {
   return o;
 }
 
+static std::vector<long> parse_list(const std::string &t) {
+  std::vector<long> v;
+  if (!t.empty()) for (auto &x : bsx::split(t, ',')) v.push_back(atol(x.c_str()));
+  return v;
+}
+// reuse history: ONE IndexParser object serves several calls in a row; every call must give what a
+// fresh object gives (the reference), i.e. nothing leaks from one call into the next
+static Outcome iseq_case(const std::string &ops, const std::string &cas) {
+  votca::xtp::IndexParser ip;
+  Outcome last;
+  std::string trace;
+  int k = 0;
+  for (auto &op : bsx::split(ops, '/')) {
+    Outcome o = op[0] == 'V' ? v2s_case(parse_list(op.substr(2)), cas, ip) : s2v_case(dec(op.substr(2)), cas, ip);
+    if (!o.ok) {
+      if (k > 0) { o.key = "index-reuse-call-" + std::string(op[0] == 'V' ? "CreateIndexString" : "CreateIndexVector") + "-after-earlier-calls"; o.what = "call #" + std::to_string(k + 1) + " on a reused IndexParser: " + o.what; }
+      return o;
+    }
+    trace += (k ? " ; " : "") + o.extra;
+    last = o; k++;
+  }
+  last.extra = trace;
+  last.cls = bsx::fnv("seq" + trace);
+  return last;
+}
+
 static Outcome run_case(const std::string &cas) {
   auto m = bsx::kvs(cas);
-  if (m["dir"] == "v2s") {
-    std::vector<long> v;
-    if (!m["v"].empty()) for (auto &t : bsx::split(m["v"], ',')) v.push_back(atol(t.c_str()));
-    return v2s_case(v, cas);
-  }
-  if (m["dir"] == "s2v") return s2v_case(dec(m["s"]), cas);
+  votca::xtp::IndexParser ip;
+  if (cas.rfind("iseq;", 0) == 0) return iseq_case(m["ops"], cas);
+  if (m["dir"] == "v2s") return v2s_case(parse_list(m["v"]), cas, ip);
+  if (m["dir"] == "s2v") return s2v_case(dec(m["s"]), cas, ip);
   Outcome o; o.ok = false; o.key = "bad-case"; o.what = "unknown case " + cas;
   return o;
 }
@@ -220,15 +242,48 @@ int main(int argc, char **argv) {
            std::string(thorough ? "5 over {0..6}" : "4 over {0..5}") + "; string->vector->string->vector for all lists of <= 3 tokens over {i, i:j | i,j < " + std::string(thorough ? "7" : "5") +
            "} joined by every separator of {' ', ',', '\\n', '\\t', ', ', '  '} (two tokens) or ' ' / mixed separators (three tokens)" + std::string(thorough ? "; all pairs of multi-digit tokens over {8..11,98..101}" : "") + ". Oracle: an independent reader of the "
            "string grammar (the produced string must DENOTE the set, checked without the code's own parser) and set semantics (sorted, duplicate free). "
-           "distinct = distinct produced strings / result vectors";
+           "Reuse: all ordered pairs (thorough: triples) of 8 base calls on ONE IndexParser object, every call compared with the reference (no leakage between calls). "
+           "distinct = distinct produced strings / result vectors / call traces";
+  // (4) reuse histories: all ordered pairs (thorough: triples) of 8 base calls on ONE IndexParser object
+  {
+    std::vector<std::string> B = {"V:", "V:3,1,2", "V:5,5,9", "V:0,1,2,3,7", "S:" + enc("1 3:5 9"), "S:", "S:" + enc("7,8\n2"), "S:" + enc("10:12 11")};
+    for (auto &x : B) for (auto &y : B) {
+      cases.push_back("iseq;ops=" + x + "/" + y);
+      if (thorough) for (auto &z : B) cases.push_back("iseq;ops=" + x + "/" + y + "/" + z);
+    }
+  }
   std::vector<long long> mineidx;
   for (long long i = 0; i < (long long)cases.size(); i++) if (a.mine(i)) mineidx.push_back(i);
+  int attributed = 0;
+  // a case string as the op list of a reuse history (the last op of a history for iseq cases)
+  auto as_op = [](const std::string &c) -> std::string {
+    auto m = bsx::kvs(c);
+    if (c.rfind("iseq;", 0) == 0) return m["ops"];
+    return m["dir"] == "v2s" ? "V:" + m["v"] : "S:" + m["s"];
+  };
   bsx::contained(
       0, (long long)mineidx.size(), [&](long long k) { return run_case(cases[mineidx[k]]); },
       [&](long long k, const Outcome &o) {
         const std::string &cas = cases[mineidx[k]];
         R.eval();
-        R.counters[cas.find("dir=v2s") != std::string::npos ? "vector_to_string_cases" : "string_to_vector_cases"]++;
+        R.counters[cas.rfind("iseq;", 0) == 0 ? "reuse_histories" : cas.find("dir=v2s") != std::string::npos ? "vector_to_string_cases" : "string_to_vector_cases"]++;
+        if (!o.ok && o.key != "fatal") {
+          // Is the failure a property of this case alone?  Re-evaluate it in a fresh process; if it holds there, the code
+          // under test carries state from earlier calls IN THE SAME PROCESS (e.g. a static buffer that is not cleared):
+          // reproduce that deterministically as a two-call history <previous case> / <this case> on one object.
+          Outcome alone;
+          bsx::contained(0, 1, [&](long long) { return run_case(cas); }, [&](long long, const Outcome &r) { alone = r; }, 20);
+          if (alone.ok) {
+            if (attributed >= 20 || k == 0) { R.counters["order_dependent_failures_not_attributed"]++; return; }
+            attributed++;
+            std::string hist = "iseq;ops=" + as_op(cases[mineidx[k - 1]]) + "/" + as_op(cas);
+            Outcome h;
+            bsx::contained(0, 1, [&](long long) { return run_case(hist); }, [&](long long, const Outcome &r) { h = r; }, 20);
+            if (!h.ok) { R.fail(h.key == "fatal" ? "index-crash" : h.key, h.what, hist); return; }
+            R.fail("index-order-dependent-unattributed", "fails after the earlier cases of this shard but neither alone nor after its predecessor: " + o.what, cas);
+            return;
+          }
+        }
         if (!o.ok) { R.fail(o.key == "fatal" ? "index-crash" : o.key, o.what + (o.key == "fatal" ? "  [" + cas + "]" : ""), cas); return; }
         if (o.cls) R.cls(o.cls);
         if (o.cls && o.extra != "rejected" && R.samples.size() < 6 && (k % 397) == 101) R.sample(o.extra);
